@@ -104,7 +104,18 @@ def run_case(cs):
     model = None  # root history's current pattern list
     used_ii = False
     classes_used = set()
+    travel = rng.random() < 0.2
+    tnow = 1700000000 + rng.randint(0, 10**7)
+    if travel:
+        cs.count("travelling_histories")
     for g in range(gens):
+        if travel:
+            # every generation under another zone: "latest" is the last generation, not the greatest date text
+            from .. import clock
+
+            tnow += rng.choice([2, 60, 3600, 7200])
+            clock.set_zone(rng.choice(["Pacific/Kiritimati", "Pacific/Pago_Pago", "UTC", "Asia/Tokyo", "America/Los_Angeles", "Europe/Berlin"]))
+            clock.freeze(tnow)
         cli = list(first_pats) if g == 0 else rng.sample(pool, rng.choice([0, 0, 1, 2]))
         if cli and rng.random() < 0.3:
             cli.append(rng.choice(cli))  # duplicate on the command line
